@@ -1,7 +1,8 @@
 /-
   `Local.resolve_filenames` as regenerated from the current source text (GenC20.lean) — scheme stripping, the
   existing-file shortcut, anchoring a relative pattern at `./` when its literal prefix names no directory, walking from
-  the directory of the literal prefix, and keeping the walked paths that match the expression or `expression/part*` —
+  the directory of the literal prefix, keeping the walked paths that match the expression or `expression/part*`, and
+  dropping the `./` of the anchoring from the kept paths (`path[2:]`, the model's `unanchor`) —
   is the resolution model (Model/Glob.lean `localResolve`, which the C20 theorems are about) once the environment
   (`os.path.isfile`, the tokenizer, `os.path.dirname`, `os.walk`, `fnmatch`) is the model's.
 -/
@@ -61,7 +62,7 @@ theorem resolveFilenames_eq_model (W : List Glob.Str) (isFile : Glob.Str → Boo
   have hdot : (".".toList ++ "/".toList : Glob.Str) = "./".toList := rfl
   have hc : ∀ t : Glob.Str, ("./".toList ++ t).contains '/' = true := by
     intro t; rw [List.contains_iff_mem]; exact List.mem_append_left _ (by decide)
-  unfold resolveFilenames localResolve stripScheme anchored walkRoot partsPattern modelEnv
+  unfold resolveFilenames localResolve stripScheme anchored walkRoot partsPattern unanchor modelEnv
   simp only [List.any_cons, List.any_nil, Bool.or_false, hasInfix_slash, isSuffixOf_slash, hdot,
     List.nil_append, decide_eq_true_eq]
   cases hp : List.isPrefixOf "file://".toList expr <;>
@@ -73,7 +74,7 @@ theorem resolveFilenames_eq_model (W : List Glob.Str) (isFile : Glob.Str → Boo
     · cases he : endsWithSlash ("./".toList ++ literalPrefix expr) <;>
         simp only [Bool.false_eq_true, Bool.true_eq_false, not_false_eq_true, not_true_eq_false, if_false, if_true]
     · cases he : endsWithSlash (literalPrefix expr) <;>
-        simp only [hs, Bool.not_false, Bool.not_true, Bool.and_self, Bool.false_and, Bool.false_eq_true,
+        simp only [hs, List.map_id', Bool.not_false, Bool.not_true, Bool.and_self, Bool.false_and, Bool.false_eq_true,
           not_false_eq_true, not_true_eq_false, if_false, if_true]
   · cases hf : isFile (List.drop 7 expr) <;> simp only [Bool.false_eq_true, if_false, if_true]
     cases hs : (literalPrefix (List.drop 7 expr)).contains '/' <;>
@@ -82,7 +83,7 @@ theorem resolveFilenames_eq_model (W : List Glob.Str) (isFile : Glob.Str → Boo
     · cases he : endsWithSlash ("./".toList ++ literalPrefix (List.drop 7 expr)) <;>
         simp only [Bool.false_eq_true, Bool.true_eq_false, not_false_eq_true, not_true_eq_false, if_false, if_true]
     · cases he : endsWithSlash (literalPrefix (List.drop 7 expr)) <;>
-        simp only [hs, Bool.not_false, Bool.not_true, Bool.and_self, Bool.false_and, Bool.false_eq_true,
+        simp only [hs, List.map_id', Bool.not_false, Bool.not_true, Bool.and_self, Bool.false_and, Bool.false_eq_true,
           not_false_eq_true, not_true_eq_false, if_false, if_true]
 
 end PysparklingVerif.Extracted.C20
